@@ -65,6 +65,10 @@ def check(rep, tier, seed, replay):
         total += len(lines)
         samples += lines[:1]
         core.log(f"[C06] {name}: {len(lines)} cases, {len(items)} 'true' answers, {len(bad)} contradicted by L0")
+    if all_mism:
+        from .deciders import cps_order_sensitive
+        all_mism, dropped = cps_order_sensitive(all_mism)
+        rep.cov["mismatches_not_compared_order_sensitive_near_limit"] = len(dropped)
     if all_mism and not any(v.get("found_input") for v in rep.violations):
         escalate(rep, all_mism, lambda o: o == "true",
                  lambda line, out, f: event_happens(line.split(" ")[0].split("_", 1)[1], f), seed)
